@@ -3,6 +3,8 @@ import ExponaxModel.Proofs.MetricsGenEq
 import ExponaxModel.Proofs.MetricsGenFourierEq
 import ExponaxModel.Proofs.SmallGapsMetrics
 import ExponaxModel.Proofs.SmallGapsResample
+import ExponaxModel.Proofs.SmallGaps2Corr
+import ExponaxModel.Proofs.SmallGaps2Integral
 /-
 C16 — error metrics are consistent quadratures of the documented norms.
 `Metrics.*` mirrors `exponax/metrics/*.py` on one channel + the per-channel combination (tied by the
@@ -201,6 +203,55 @@ theorem C16_generated_MSE_RMSE_resolution_independent :
                       Gen.MetricsGen.MSE D Nnew [vu] (some [vr]) L = Gen.MetricsGen.MSE D Nold [ur] (some [rr]) L ∧
                         Gen.MetricsGen.RMSE D Nnew [vu] (some [vr]) L = Gen.MetricsGen.RMSE D Nold [ur] (some [rr]) L :=
   @Exponax.SmallGaps.MSE_RMSE_resolution_independent
+
+
+
+/-! ### the metric IS the continuous quantity: for a band-limited state the p = 2 aggregator equals the Mathlib integral of u²
+over the box [0, L]^D (hence is independent of N); multi-channel correlation lies in [−1, 1] and is ±1 for proportional channels -/
+
+open Exponax.SmallGaps2 in
+theorem C16_correlation_multichannel :
+    ∀ (D N : ℕ),
+      0 < N →
+        ∀ (u r : List (Array ℝ)),
+          (∀ a ∈ u, a.size = N ^ D) →
+            ((∀ a ∈ r, a.size = N ^ D) → -1 ≤ Gen.MetricsGen.correlation u r ∧ Gen.MetricsGen.correlation u r ≤ 1) ∧
+              (u ≠ [] →
+                  r.length = u.length →
+                    (∀ a ∈ u, ∃ x ∈ a.toList, x ≠ 0) →
+                      (∀ (c : ℕ) (h1 : c < u.length) (h2 : c < r.length),
+                          ∃ a, 0 < a ∧ r[c] = Array.map (fun x ↦ a * x) u[c]) →
+                        Gen.MetricsGen.correlation u r = 1) ∧
+                (u ≠ [] →
+                  r.length = u.length →
+                    (∀ a ∈ u, ∃ x ∈ a.toList, x ≠ 0) →
+                      (∀ (c : ℕ) (h1 : c < u.length) (h2 : c < r.length), ∃ a < 0, r[c] = Array.map (fun x ↦ a * x) u[c]) →
+                        Gen.MetricsGen.correlation u r = -1) :=
+  @Exponax.SmallGaps2.generated_correlation_multichannel
+
+open Exponax.SmallGaps2 in
+theorem C16_metric_is_the_integral :
+    ∀ (D N : ℕ),
+      0 < N →
+        ∀ (L : ℝ),
+          0 < L →
+            ∀ (ms : ExactLinear.Modes),
+              (∀ x ∈ ms, ExactLinear.BelowNyquist D N x.1) →
+                Metrics.spatialAggregator D N L 2 1 (SmallGaps.reArr (ExactLinear.stateOf D N ms)) =
+                  ∫ (x : Fin D → ℝ) in box D L, trigPoly D L ms x ^ 2 :=
+  @Exponax.SmallGaps2.spatialAggregator_eq_integral
+
+open Exponax.SmallGaps2 in
+theorem C16_band_limited_metric_independent_of_N :
+    ∀ (D N N' : ℕ),
+      0 < N →
+        0 < N' →
+          ∀ (L q : ℝ) (ms : ExactLinear.Modes),
+            (∀ x ∈ ms, ExactLinear.BelowNyquist D N x.1) →
+              (∀ x ∈ ms, ExactLinear.BelowNyquist D N' x.1) →
+                Metrics.spatialAggregator D N L 2 q (SmallGaps.reArr (ExactLinear.stateOf D N ms)) =
+                  Metrics.spatialAggregator D N' L 2 q (SmallGaps.reArr (ExactLinear.stateOf D N' ms)) :=
+  @Exponax.SmallGaps2.spatialAggregator_stateOf_resolution_independent
 
 
 end Exponax
